@@ -270,3 +270,368 @@ def apply_toplevel_aliases(tree, name, value):
                 dst = dst[k]
             dst[lk[-1]] = src
     return value
+
+
+# ---------------------------------------------------------------- T-FOLD for the JS side: the module-level tables as they stand after load
+class JSUnfoldable(Exception):
+    pass
+
+
+class _JSReturn(Exception):
+    def __init__(self, v):
+        self.v = v
+
+
+class JSFolder:
+    """Closed-initialiser evaluator for ESTree, the twin of sa/fold.py: module-level constant tables and the pure statements that
+    fill or convert them (Object.entries / map / forEach / for-of / new Map / get / set / computed member assignment).  Nothing of
+    the repo's JavaScript is executed; objects and Maps are both Python dicts, functions are the symbols ('ident', name).
+    Anything outside this fragment makes the names it touches unfoldable (fail closed)."""
+
+    def __init__(self, tree):
+        self.env = {}
+        self.unfolded = {}
+        for st in tree['body']:
+            d = st.get('declaration') if st['type'] in ('ExportNamedDeclaration', 'ExportDefaultDeclaration') else None
+            node = d if d is not None else st
+            if node['type'] == 'FunctionDeclaration' and node.get('id'):
+                self.env[node['id']['name']] = ('ident', node['id']['name'])
+        for st in tree['body']:
+            d = st.get('declaration') if st['type'] == 'ExportNamedDeclaration' else None
+            node = d if d is not None else st
+            if node['type'] in ('FunctionDeclaration', 'ImportDeclaration', 'ExportNamedDeclaration', 'ExportDefaultDeclaration',
+                                'ExportAllDeclaration', 'EmptyStatement', 'ClassDeclaration'):
+                continue
+            try:
+                self.stmt(node, self.env)
+            except (JSUnfoldable, _JSReturn, KeyError, IndexError, TypeError, ValueError, AttributeError, RecursionError) as e:
+                why = '%s: %s' % (type(e).__name__, e)
+                for nm in self.touched(node):
+                    self.unfolded[nm] = why
+                    self.env.pop(nm, None)
+
+    def touched(self, node):
+        """names declared by the statement, and names whose value it may change (assignment through a member, a method call on it)"""
+        out = set()
+        for n in jwalk(node):
+            t = n.get('type')
+            if t == 'VariableDeclarator':
+                out |= {x['name'] for x in jwalk(n['id']) if x.get('type') == 'Identifier'}
+            elif t == 'AssignmentExpression':
+                e = n['left']
+                while e['type'] == 'MemberExpression':
+                    e = e['object']
+                if e['type'] == 'Identifier':
+                    out.add(e['name'])
+            elif t == 'CallExpression' and n['callee']['type'] == 'MemberExpression':
+                e = n['callee']['object']
+                while e['type'] in ('MemberExpression', 'CallExpression'):
+                    e = e['object'] if e['type'] == 'MemberExpression' else e['callee']
+                if e['type'] == 'Identifier':
+                    out.add(e['name'])
+                for a in n['arguments']:
+                    if a['type'] == 'Identifier':
+                        out.add(a['name'])
+        return out
+
+    def value(self, name):
+        if name in self.env:
+            return self.env[name]
+        raise AnalysisError('the JavaScript table %s is not a constant after module load (%s)' % (name, self.unfolded.get(name, 'not defined')))
+
+    # statements
+    def stmt(self, n, env):
+        t = n['type']
+        if t == 'VariableDeclaration':
+            for d in n['declarations']:
+                v = self.expr(d['init'], env) if d.get('init') is not None else None
+                self.bind(d['id'], v, env)
+        elif t == 'ExpressionStatement':
+            self.expr(n['expression'], env)
+        elif t == 'BlockStatement':
+            for s in n['body']:
+                self.stmt(s, env)
+        elif t == 'ReturnStatement':
+            raise _JSReturn(self.expr(n['argument'], env) if n.get('argument') else None)
+        elif t == 'ForOfStatement':
+            it = self.iterable(self.expr(n['right'], env))
+            for v in it:
+                e2 = env
+                left = n['left']
+                if left['type'] == 'VariableDeclaration':
+                    self.bind(left['declarations'][0]['id'], v, e2)
+                else:
+                    self.bind(left, v, e2)
+                self.stmt(n['body'], e2)
+        elif t == 'IfStatement':
+            if self.truthy(self.expr(n['test'], env)):
+                self.stmt(n['consequent'], env)
+            elif n.get('alternate'):
+                self.stmt(n['alternate'], env)
+        elif t == 'EmptyStatement':
+            pass
+        else:
+            raise JSUnfoldable('statement %s at line %s' % (t, line(n)))
+
+    def bind(self, pat, v, env):
+        t = pat['type']
+        if t == 'Identifier':
+            env[pat['name']] = v
+        elif t == 'ArrayPattern':
+            vs = list(v)
+            for i, p in enumerate(pat['elements']):
+                if p is not None:
+                    self.bind(p, vs[i] if i < len(vs) else None, env)
+        elif t == 'ObjectPattern':
+            for p in pat['properties']:
+                if p['type'] != 'Property' or p['computed']:
+                    raise JSUnfoldable('object pattern')
+                k = p['key']['name'] if p['key']['type'] == 'Identifier' else p['key']['value']
+                self.bind(p['value'], v.get(k), env)
+        else:
+            raise JSUnfoldable('pattern %s' % t)
+
+    @staticmethod
+    def truthy(v):
+        return bool(v) if not isinstance(v, (list, dict, tuple)) else True
+
+    @staticmethod
+    def iterable(v):
+        if isinstance(v, list):
+            return list(v)
+        if isinstance(v, dict):
+            return [[k, x] for k, x in v.items()]         # a Map iterates as [key, value] pairs
+        if isinstance(v, str):
+            return list(v)
+        raise JSUnfoldable('not iterable')
+
+    # expressions
+    def expr(self, n, env):
+        t = n['type']
+        if t == 'Literal':
+            if 'regex' in n:
+                return ('regex', n['regex']['pattern'], n['regex']['flags'])
+            return n['value']
+        if t == 'TemplateLiteral':
+            out = []
+            for i, q in enumerate(n['quasis']):
+                out.append(q['value']['cooked'])
+                if i < len(n['expressions']):
+                    v = self.expr(n['expressions'][i], env)
+                    if not isinstance(v, (str, int)):
+                        raise JSUnfoldable('template of a non-string')
+                    out.append(str(v))
+            return ''.join(out)
+        if t == 'Identifier':
+            if n['name'] in env:
+                return env[n['name']]
+            if n['name'] == 'undefined':
+                return None
+            if n['name'] in self.unfolded:
+                raise JSUnfoldable('name %s' % n['name'])
+            return ('ident', n['name'])
+        if t == 'ArrayExpression':
+            out = []
+            for x in n['elements']:
+                if x is not None and x['type'] == 'SpreadElement':
+                    out.extend(self.iterable(self.expr(x['argument'], env)))
+                else:
+                    out.append(None if x is None else self.expr(x, env))
+            return out
+        if t == 'ObjectExpression':
+            out = {}
+            for p in n['properties']:
+                if p['type'] == 'SpreadElement':
+                    out.update(self.expr(p['argument'], env))
+                    continue
+                if p['type'] != 'Property' or p.get('kind', 'init') != 'init':
+                    raise JSUnfoldable('object member')
+                k = p['key']
+                key = self.expr(k, env) if p['computed'] else (k['name'] if k['type'] == 'Identifier' else k['value'])
+                out[self.key(key)] = self.expr(p['value'], env)
+            return out
+        if t == 'UnaryExpression' and n['operator'] in '-+!':
+            v = self.expr(n['argument'], env)
+            return -v if n['operator'] == '-' else (+v if n['operator'] == '+' else (not self.truthy(v)))
+        if t == 'BinaryExpression' and n['operator'] in ('+', '-', '*', '/', '===', '!==', '==', '!=', '<', '>', '<=', '>='):
+            a, b = self.expr(n['left'], env), self.expr(n['right'], env)
+            if not all(isinstance(x, (int, float, str)) and not isinstance(x, bool) for x in (a, b)) or type(a) is str != (type(b) is str):
+                raise JSUnfoldable('binary operator on %s, %s' % (type(a).__name__, type(b).__name__))
+            import operator as op
+            return {'+': op.add, '-': op.sub, '*': op.mul, '/': op.truediv, '===': op.eq, '==': op.eq, '!==': op.ne, '!=': op.ne,
+                    '<': op.lt, '>': op.gt, '<=': op.le, '>=': op.ge}[n['operator']](a, b)
+        if t == 'ConditionalExpression':
+            return self.expr(n['consequent'] if self.truthy(self.expr(n['test'], env)) else n['alternate'], env)
+        if t in ('ArrowFunctionExpression', 'FunctionExpression'):
+            return ('closure', n, env)
+        if t == 'MemberExpression':
+            o = self.expr(n['object'], env)
+            k = self.expr(n['property'], env) if n['computed'] else n['property']['name']
+            if isinstance(o, dict):
+                if not n['computed'] and k == 'size':
+                    return len(o)
+                return o.get(self.key(k))
+            if isinstance(o, (list, str)):
+                if k == 'length':
+                    return len(o)
+                if isinstance(k, (int, float)) and not isinstance(k, bool):
+                    return o[int(k)] if 0 <= int(k) < len(o) else None
+            raise JSUnfoldable('member %s' % (k,))
+        if t == 'AssignmentExpression' and n['operator'] == '=':
+            v = self.expr(n['right'], env)
+            left = n['left']
+            if left['type'] == 'MemberExpression':
+                o = self.expr(left['object'], env)
+                k = self.expr(left['property'], env) if left['computed'] else left['property']['name']
+                if isinstance(o, dict):
+                    o[self.key(k)] = v
+                elif isinstance(o, list) and isinstance(k, int) and 0 <= k <= len(o):
+                    if k == len(o):
+                        o.append(v)
+                    else:
+                        o[k] = v
+                else:
+                    raise JSUnfoldable('assignment target')
+                return v
+            if left['type'] == 'Identifier':
+                env[left['name']] = v
+                return v
+            raise JSUnfoldable('assignment target')
+        if t == 'NewExpression' and n['callee']['type'] == 'Identifier' and n['callee']['name'] in ('Map', 'Set'):
+            arg = self.expr(n['arguments'][0], env) if n['arguments'] else []
+            if n['callee']['name'] == 'Map':
+                out = {}
+                for kv in self.iterable(arg):
+                    out[self.key(kv[0])] = kv[1]
+                return out
+            return list(dict.fromkeys(self.iterable(arg)))
+        if t == 'CallExpression':
+            return self.call(n, env)
+        if t == 'SequenceExpression':
+            v = None
+            for x in n['expressions']:
+                v = self.expr(x, env)
+            return v
+        raise JSUnfoldable('expression %s at line %s' % (t, line(n)))
+
+    @staticmethod
+    def key(k):
+        if isinstance(k, (str, int, float)) and not isinstance(k, bool):
+            return k
+        raise JSUnfoldable('key %r' % (k,))
+
+    def apply(self, f, args):
+        if not (isinstance(f, tuple) and f and f[0] == 'closure'):
+            raise JSUnfoldable('call of a function that is not a literal closure')
+        _, node, env = f
+        e2 = dict(env)
+        for i, p in enumerate(node['params']):
+            self.bind(p, args[i] if i < len(args) else None, e2)
+        if node['body']['type'] != 'BlockStatement':
+            return self.expr(node['body'], e2)
+        try:
+            self.stmt(node['body'], e2)
+        except _JSReturn as r:
+            return r.v
+        return None
+
+    def call(self, n, env):
+        c = n['callee']
+        args = []
+        for a in n['arguments']:
+            if a['type'] == 'SpreadElement':
+                args.extend(self.iterable(self.expr(a['argument'], env)))
+            else:
+                args.append(self.expr(a, env))
+        if c['type'] == 'MemberExpression' and not c['computed']:
+            m = c['property']['name']
+            if c['object']['type'] == 'Identifier' and c['object']['name'] == 'Object' and 'Object' not in env:
+                o = args[0]
+                if not isinstance(o, dict):
+                    raise JSUnfoldable('Object.%s of a non-object' % m)
+                if m == 'entries':
+                    return [[k, v] for k, v in o.items()]
+                if m == 'keys':
+                    return list(o.keys())
+                if m == 'values':
+                    return list(o.values())
+                if m == 'freeze':
+                    return o
+                if m == 'fromEntries':
+                    return {self.key(k): v for k, v in self.iterable(o)}
+                if m == 'assign':
+                    for x in args[1:]:
+                        o.update(x)
+                    return o
+                raise JSUnfoldable('Object.%s' % m)
+            if c['object']['type'] == 'Identifier' and c['object']['name'] == 'Array' and m == 'from':
+                return self.iterable(args[0])
+            o = self.expr(c['object'], env)
+            if isinstance(o, list):
+                if m == 'map':
+                    return [self.apply(args[0], [x, i]) for i, x in enumerate(o)]
+                if m == 'forEach':
+                    for i, x in enumerate(list(o)):
+                        self.apply(args[0], [x, i])
+                    return None
+                if m == 'filter':
+                    return [x for i, x in enumerate(o) if self.truthy(self.apply(args[0], [x, i]))]
+                if m == 'reduce' and len(args) == 2:
+                    acc = args[1]
+                    for i, x in enumerate(o):
+                        acc = self.apply(args[0], [acc, x, i])
+                    return acc
+                if m == 'concat':
+                    out = list(o)
+                    for a in args:
+                        out.extend(a if isinstance(a, list) else [a])
+                    return out
+                if m == 'slice':
+                    return o[slice(*[int(a) for a in args])] if args else list(o)
+                if m in ('includes',):
+                    return args[0] in o
+                if m == 'indexOf':
+                    return o.index(args[0]) if args[0] in o else -1
+                if m == 'push':
+                    o.extend(args)
+                    return len(o)
+                if m == 'join':
+                    return (args[0] if args else ',').join(str(x) for x in o)
+            if isinstance(o, dict):
+                if m == 'get':
+                    return o.get(self.key(args[0]))
+                if m == 'set':
+                    o[self.key(args[0])] = args[1]
+                    return o
+                if m in ('has', 'hasOwnProperty'):
+                    return self.key(args[0]) in o
+                if m == 'forEach':
+                    for k, v in list(o.items()):
+                        self.apply(args[0], [v, k])
+                    return None
+                if m == 'entries':
+                    return [[k, v] for k, v in o.items()]
+                if m == 'keys':
+                    return list(o.keys())
+                if m == 'values':
+                    return list(o.values())
+            if isinstance(o, str):
+                if m == 'split' and len(args) == 1 and isinstance(args[0], str):
+                    return o.split(args[0]) if args[0] else list(o)
+                if m == 'toUpperCase':
+                    return o.upper()
+                if m == 'toLowerCase':
+                    return o.lower()
+            raise JSUnfoldable('method %s at line %s' % (m, line(n)))
+        raise JSUnfoldable('call at line %s' % line(n))
+
+
+_JSFOLD_CACHE = {}
+
+
+def module_value(tree, name):
+    """value of the top-level JS name after the module's top-level statements ran (fold; AnalysisError when it is not a constant)"""
+    k = id(tree)
+    if k not in _JSFOLD_CACHE:
+        _JSFOLD_CACHE[k] = (tree, JSFolder(tree))
+    return _JSFOLD_CACHE[k][1].value(name)
